@@ -27,7 +27,7 @@ import (
 const (
 	batchSize    = 104 // programs per case = per helper process
 	goroutines   = 8
-	sharedTrials = 64 // fresh Programs per shared-program case
+	sharedTrials = 192 // fresh Programs per shared-program case
 )
 
 func init() {
@@ -39,8 +39,8 @@ func init() {
 			"time with an injected fixed clock and named zones; math; loads of cached frozen modules; repr of functions/modules/built-ins and tables keyed by them; **kwargs binding). " +
 			"Each program is executed in helper process A (batch order), helper process B (reverse order), and in the engine process: once (reference), again after the whole batch and a GC (>= batch-1 unrelated executions in between), twice back-to-back on one fresh Thread, once on a Thread reused for the whole batch, " +
 			"8 goroutines running the same program simultaneously, and 8 goroutines each walking the batch in a different order. Every record is compared byte for byte with the reference. " +
-			"Shared-program cases (16 quick / 240 thorough): one generated program with 1-4 long functions (3 000-28 000 lines in total, bodies skipped at run time) that fails on the last line of the innermost one, several frames deep (defs, lambdas, comprehensions, sorted callbacks), and calls a host built-in that records Thread.CallStack(); " +
-			strconv.Itoa(sharedTrials) + " trials, each with a FRESH *starlark.Program (every 8th from SourceProgramOptions, the others from Write -> CompiledProgram) Init-ed by 8 goroutines released by a spin barrier with a per-trial stagger of 0-20 us per goroutine; every goroutine's record is compared with a solo reference made from a separately compiled Program. " +
+			"Shared-program cases (16 quick / 240 thorough): one generated program with 1-4 long functions (6 000-40 000 lines in total, bodies skipped at run time) that fails on the last line of the innermost one, several frames deep (defs, lambdas, comprehensions, sorted callbacks), and calls a host built-in that records Thread.CallStack(); " +
+			strconv.Itoa(sharedTrials) + " trials, each with a FRESH *starlark.Program (every 16th from SourceProgramOptions, the others from Write -> CompiledProgram) Init-ed by 8 goroutines released by a spin barrier with a per-trial stagger of 0-20 us per goroutine; every goroutine's record is compared with a solo reference made from a separately compiled Program. " +
 			"A program is non-trivial if its record contains a dict/set/struct listing with >= 2 elements or a \"did you mean\" hint, or if the directed generator tagged it as printing a map-backed listing (dir, json object, str of dict/set/struct/module); distinct = distinct (options, source text) among those.",
 		Assumptions: []string{
 			"two helper processes started from the same binary get independent maphash seeds (hash/maphash.MakeSeed) and address-space layouts",
